@@ -106,7 +106,7 @@ def value_findings(eff, out, scale, seed):
             continue
         s = uc.try_eval(uc.eval_si, eff, vals, dv)
         n = uc.try_eval(uc.eval_n, out, vals, dv)
-        pts.append(n if s is not None else 'skip')
+        pts.append(n if s is not None and uc.try_eval(uc.eval_n, eff, vals, dv) is not None else 'skip')
         if res or s is None:
             continue        # where the input has no real value there is nothing to preserve (SymPy may even extend
             #                 the domain when it re-evaluates: (x**0.5)**2 -> x)
